@@ -24,6 +24,7 @@ import (
 	"sort"
 	"strings"
 	"sync/atomic"
+	"syscall"
 	"time"
 	_ "time/tzdata"
 	"unicode"
@@ -889,6 +890,17 @@ func runJob(j job, thorough bool) (res result) {
 			res.ViolCount["no-arg|function-invoked-more-than-once|bump"]++
 		}
 	}
+	if !j.CSimple && !j.SSimple && !j.NoMissing {
+		vs, n := edgeProbe(e)
+		res.Cases += n
+		for _, w := range vs {
+			res.Viol = append(res.Viol, viol{Job: j, Fn: w[0], Spelling: "exact", Mode: "proxy", Cell: "edge", Kind: w[1], What: w[2]})
+			if res.ViolCount == nil {
+				res.ViolCount = map[string]int64{}
+			}
+			res.ViolCount["edge|"+w[1]+"|"+w[0]]++
+		}
+	}
 	tp := params(thorough)
 	distinct := map[string]bool{}
 	reported := map[string]int{}
@@ -1006,6 +1018,121 @@ func runJob(j job, thorough bool) (res result) {
 	sort.Strings(res.SkippedVals)
 	if e.lab.Pool != nil {
 		res.PoolTasks = e.lab.Pool.Count()
+	}
+	return
+}
+
+// edgeProbe: cells outside the value domain the enumeration derives, each on the job's transport:
+//   - a result the encoder refuses (a time in the year 10000, alone, inside a struct, beside another result):
+//     the caller gets an error, never a value; a call in flight beside it on the same client is not concerned;
+//   - a last result whose type implements error but cannot be nil (syscall.Errno): zero is no error, anything
+//     else is the error;
+//   - a context-taking function that passes its context on to a client proxy (a nested call);
+//   - proxy fields whose tags end in a quoted value or hold an empty value.
+func edgeProbe(e *env) (viols [][3]string, cases int64) {
+	bad := func(fn, kind, what string) { viols = append(viols, [3]string{fn, kind, what}) }
+	far := time.Date(10000, 1, 1, 0, 0, 0, 0, time.UTC)
+	type event struct {
+		Name string
+		At   time.Time
+	}
+	inner := e.lab.Client(e.j.Transport)
+	inner.Timeout = 10 * time.Second
+	var innerProxy struct {
+		Greet func(ctx context.Context, s string) (string, error) `name:"edgeGreet"`
+	}
+	inner.UseService(&innerProxy)
+	defer inner.Abort()
+	e.svc.AddFunction(func(s string) string { return "hello " + s }, "edgeGreet")
+	e.svc.AddFunction(func() time.Time { return far }, "edgeWhen")
+	e.svc.AddFunction(func() event { return event{"launch", far} }, "edgeEvent")
+	e.svc.AddFunction(func() (int, time.Time) { return 7, far }, "edgePair")
+	e.svc.AddFunction(func() int { time.Sleep(300 * time.Millisecond); return 42 }, "edgeSlow")
+	e.svc.AddFunction(func() (int, syscall.Errno) { return 7, 0 }, "edgeErrnoZero")
+	e.svc.AddFunction(func() (int, syscall.Errno) { return 7, syscall.ENOENT }, "edgeErrnoSet")
+	e.svc.AddFunction(func(ctx context.Context, s string) (string, error) { return innerProxy.Greet(ctx, s) }, "edgeNested")
+	var p struct {
+		When      func() (time.Time, error)      `name:"edgeWhen"`
+		Event     func() (event, error)          `name:"edgeEvent"`
+		Pair      func() (int, time.Time, error) `name:"edgePair"`
+		Slow      func() (int, error)            `name:"edgeSlow"`
+		ErrnoZero func() (int, error)            `name:"edgeErrnoZero"`
+		ErrnoSet  func() (int, error)            `name:"edgeErrnoSet"`
+		Nested    func(s string) (string, error) `name:"edgeNested"`
+		Quoted    func(s string) (string, error) `name:"edgeGreet" header:"token:'abc'"`
+		EmptyVal  func(s string) (string, error) `name:"edgeGreet" context:"a:1,k:"`
+	}
+	guard := func(fn string, f func()) {
+		defer func() {
+			if r := recover(); r != nil {
+				bad(fn, "caller-panic", fmt.Sprintf("%s on %s: panic in the caller: %v", fn, e.j.Transport, r))
+			}
+		}()
+		f()
+	}
+	guard("UseService", func() { e.client.UseService(&p) })
+	if p.When == nil {
+		return
+	}
+	slow := make(chan string, 1)
+	go func() {
+		r, err := p.Slow()
+		slow <- fmt.Sprintf("%d %v", r, err)
+	}()
+	time.Sleep(50 * time.Millisecond)
+	guard("edgeWhen", func() {
+		cases++
+		if r, err := p.When(); err == nil {
+			bad("edgeWhen", "unencodable-result-returned-as-a-value", fmt.Sprintf("a function returning the time %v, which the encoder refuses, gave the caller %v and no error on %s", far, r, e.j.Transport))
+		}
+	})
+	guard("edgeEvent", func() {
+		cases++
+		if r, err := p.Event(); err == nil {
+			bad("edgeEvent", "unencodable-result-returned-as-a-value", fmt.Sprintf("a struct result holding the time %v gave the caller %+v and no error on %s", far, r, e.j.Transport))
+		}
+	})
+	guard("edgePair", func() {
+		cases++
+		if a, b, err := p.Pair(); err == nil {
+			bad("edgePair", "unencodable-result-returned-as-a-value", fmt.Sprintf("results (7, %v) gave the caller (%v, %v) and no error on %s", far, a, b, e.j.Transport))
+		}
+	})
+	cases++
+	select {
+	case r := <-slow:
+		if r != "42 <nil>" {
+			bad("edgeSlow", "call-in-flight-beside-an-unanswerable-call-fails", fmt.Sprintf("on %s a call in flight on the same client while three calls with unencodable results were made returned %s, its function returns 42", e.j.Transport, r))
+		}
+	case <-time.After(20 * time.Second):
+		bad("edgeSlow", "call-in-flight-beside-an-unanswerable-call-fails", "the call in flight did not return within 20 s")
+	}
+	guard("edgeErrnoZero", func() {
+		cases++
+		if r, err := p.ErrnoZero(); err != nil || r != 7 {
+			bad("edgeErrnoZero", "non-nilable-error-type", fmt.Sprintf("func() (int, syscall.Errno) returning (7, 0) on %s: the caller got (%v, %v)", e.j.Transport, r, err))
+		}
+	})
+	guard("edgeErrnoSet", func() {
+		cases++
+		if _, err := p.ErrnoSet(); err == nil || !strings.Contains(err.Error(), syscall.ENOENT.Error()) {
+			bad("edgeErrnoSet", "non-nilable-error-type", fmt.Sprintf("func() (int, syscall.Errno) returning (7, ENOENT) on %s: the caller got the error %v", e.j.Transport, err))
+		}
+	})
+	guard("edgeNested", func() {
+		cases++
+		if r, err := p.Nested("x"); err != nil || r != "hello x" {
+			bad("edgeNested", "nested-call-with-the-service-context", fmt.Sprintf("a context-taking function that passes its context to a client proxy on %s: the caller got (%q, %v), the local call returns \"hello x\"", e.j.Transport, r, err))
+		}
+	})
+	for name, f := range map[string]func(string) (string, error){"tag-with-quoted-last-value": p.Quoted, "tag-with-empty-value": p.EmptyVal} {
+		name, f := name, f
+		guard(name, func() {
+			cases++
+			if r, err := f("x"); err != nil || r != "hello x" {
+				bad(name, "proxy-tag", fmt.Sprintf("%s on %s: the caller got (%q, %v)", name, e.j.Transport, r, err))
+			}
+		})
 	}
 	return
 }
